@@ -4,6 +4,9 @@
 //	go2coq Sites -repo <path> -text    the same tables as plain text (for reading)
 //	go2coq Globals -repo <path>    package-level variables, their writers, Register call sites
 //	                               (properties C15 and C20; globals.go)
+//	go2coq Formulas | FormulasInfo | FormulasAttr | FormulasHeal | FormulasShield | FormulasTurn | FormulasQueue -repo <path>
+//	                               the pure leaf formulas and constant tables translated into Gallina
+//	                               (formulas.go, formulas_specs.go; these load only the packages they translate)
 //
 // It loads every package under ./pkg, ./internal and ./cmd of the repository with full type
 // information (golang.org/x/tools/go/packages; test files and files excluded by build
@@ -58,6 +61,8 @@ func main() {
 		}
 	case "Globals":
 		fmt.Print(genGlobals(root))
+	case "Formulas", "FormulasInfo", "FormulasAttr", "FormulasHeal", "FormulasShield", "FormulasTurn", "FormulasQueue":
+		fmt.Print(genFormulas(root, gen))
 	default:
 		die("unknown generator %q", gen)
 	}
